@@ -53,7 +53,9 @@ theorem axis_int_spec (n : Nat) (i : Int) :
 /-- `None` anywhere in the index is refused with `IndexError`. -/
 theorem getitem_none {α ω} (c : Cube α ω) (items : List Item)
     (h : items.any (· == .none) = true) : c.getitem items = .error .indexError := by
-  simp [Cube.getitem, normItems, sanitize, h, bind, Except.bind]
+  have h' := stripEmptyEllipsis_any_none c.shape.length items
+  rw [h] at h'
+  simp only [Cube.getitem, normItems, sanitize, h', bind, Except.bind, if_true]
 
 /-- **Data, mask and uncertainty**: the result holds, at every multi-index `r`, the source's
 value at `srcIndex axes r`, where `axes` is the per-axis effect of the item; a scalar mask is
@@ -155,7 +157,8 @@ scalar cubes are not supported, or `IndexError` when an integer is out of range)
 theorem getitem_scalar_refused {α ω} (c : Cube α ω) (items : List Item)
     (hlen : items.length = c.shape.length) (hall : ∀ it ∈ items, it.isInt = true) :
     c.getitem items = .error .valueError ∨ c.getitem items = .error .indexError := by
-  simp only [Cube.getitem, normItems, sanitize_all_int_ok hlen hall, bind, Except.bind]
+  simp only [Cube.getitem, normItems, stripEmptyEllipsis_of_ne _ _ (Or.inl (by omega : items.length ≠ c.shape.length + 1)),
+    sanitize_all_int_ok hlen hall, bind, Except.bind]
   split
   · rename_i e he
     right; rw [normAxes_error he]
@@ -165,5 +168,24 @@ theorem getitem_scalar_refused {α ω} (c : Cube α ω) (items : List Item)
       right; rw [applyAxes_error he]
     · left
       rw [slicedWcs_all_int c.wcs its (normAxes_all_int hits hall)]
+
+/-- **An Ellipsis that stands for no axis** (one entry per axis plus a single Ellipsis, valid for
+numpy) is simply ignored: the index behaves exactly like the same entries without it. -/
+theorem getitem_empty_ellipsis {α ω} (c : Cube α ω) (items : List Item)
+    (hlen : items.length = c.shape.length + 1) (hone : countEllipsis items = 1) :
+    c.getitem items = c.getitem (items.filter (· != .ellipsis)) := by
+  have hfl : ∀ l : List Item, (l.filter (· != .ellipsis)).length + countEllipsis l = l.length := by
+    intro l
+    induction l with
+    | nil => rfl
+    | cons it its ih =>
+      simp only [countEllipsis] at ih ⊢
+      cases it <;> simp [List.filter_cons] at ih ⊢ <;> omega
+  have hfl := hfl items
+  have h1 : stripEmptyEllipsis c.shape.length items = items.filter (· != .ellipsis) := by
+    simp [stripEmptyEllipsis, hlen, hone]
+  have h2 : stripEmptyEllipsis c.shape.length (items.filter (· != .ellipsis)) = items.filter (· != .ellipsis) :=
+    stripEmptyEllipsis_of_ne _ _ (Or.inl (by omega))
+  simp only [Cube.getitem, normItems, h1, h2]
 
 end Ndcube.C01
